@@ -1647,8 +1647,14 @@ class StmtLowering(object):
                             pcvar = "T{0}.pc".format(U.C + w)
                             upd[pcvar] = ite(hit, lo.run_entry.pc, env.g(pcvar))
 
+                    def unreserve(env, upd):
+                        # the thread object that failed to start is dropped: its slot is free again
+                        # (slots then number the threads that really started, as the replay does)
+                        for w in range(U.W):
+                            upd["W.state[{0}]".format(w)] = ite(eq(idx, w), 0, env.g("W.state[{0}]".format(w)))
+
                     fail = and_(env.g("allow_start_failure"), eq(env.choice, 1))
-                    return [PrimOutcome(not_(fail), eff, None, NONE), PrimOutcome(fail, None, "RuntimeError", U.EXC_RT)]
+                    return [PrimOutcome(not_(fail), eff, None, NONE), PrimOutcome(fail, unreserve, "RuntimeError", U.EXC_RT)]
 
                 return finish("Thread.start", outcomes, "none", raises=("RuntimeError",))
             if name == "join":
